@@ -32,6 +32,7 @@ def efficiency_bin(G, local=False):
     Eloc : Nx1 np.ndarray
         local efficiency, only if local=True
     '''
+    G = np.asarray(G, dtype=float)  # the same network whatever the storage: arithmetic below must not be logical (bool) or wrap (small integers)
     def distance_inv(g):
         D = np.eye(len(g))
         n = 1
